@@ -24,7 +24,8 @@ TSZ = nodedb.TYPES
 MAXDEPTH = 100
 BADID = re.compile(r"#### BAD ID \[\s*-?\d+\] ?")
 
-# finding keys (see notes/C08.md, section Defects)
+# finding keys (see notes/C08.md, section Defects).  The first six are REPAIRED in /repo (909ac4d, 8281ca0, 9d19299,
+# bf287b5, fff8c32): their witnesses live in corpus/C08/ and must pass; a regression re-fires under the original key.
 K_STALE = "adf-link-cache-stale-after-rename"
 K_NEST = "adf-link-path-through-own-cycle-stack-overflow"
 K_CLOSE = "adf-close-recursion-mutual-file-links"
@@ -262,7 +263,10 @@ class Gen:
         self.allow_defects = allow_defects
         self.renamed = False
         self.moved = False
-        self.forward_only = rng.random() < 0.75         # ADF: files that link to each other crash the close (K_CLOSE)
+        # files that link to EACH OTHER keep each other open after the caller's close (reference cycle, C17's known
+        # finding fd:adf-link-cycle-keeps-files-open); opening such a file again would put two ADF handles on one file,
+        # which is outside this check's assumptions: histories that allow back links run as one session
+        self.forward_only = rng.random() < 0.75
         dirs = ["m", "m", "m", "cwd", "p1", "p2", "p3", "m/sub"]
         for k in range(1, nfiles + 1):
             loc = layout[k - 1] if layout else rng.choice(dirs if k > 1 else ["m", "m", "cwd", "p1"])
@@ -673,7 +677,7 @@ class Gen:
                 fs = [f for f in self.w.files.values() if f.mode is not None]
                 if len(fs) > 1:
                     f = rng.choice(fs); self.emit("closef %d" % f.fid, "ok"); f.mode = None
-            else:
+            elif self.forward_only:
                 # everything closed, the search path possibly reconfigured, a subset re-opened
                 self.sweep(); self.close_all()
                 if rng.random() < 0.4:
@@ -683,9 +687,10 @@ class Gen:
                 self.open_all(rng.choice(["m", "m", "r"]), sub)
         self.sweep()
         self.close_all()
-        self.open_all("r")
-        self.sweep()
-        self.close_all()
+        if self.forward_only:
+            self.open_all("r")
+            self.sweep()
+            self.close_all()
         return self
 
 
@@ -743,7 +748,7 @@ def judge(be, g_lines, g_expect, g_meta, res):
                 # a mutation / open / close did not do what the generator planned: the mirror is off from here on.
                 # ADF + the faithful model refuses it too + the file was opened by the caller and never closed by him:
                 # ADFI_close_file closed it behind his back (finding #9)
-                key = K_CLOSE9 if (be == "adf" and mod == got and meta.get("user_open")) else None
+                key = None              # 909ac4d: a file opened by the caller is closed by nobody else
                 fails.append((i, dict(op=nodedb.short(g_lines[i], 200), expected=exp, got=got,
                                       oracle="a file opened by the caller stays open until the caller closes it"), key))
                 break
@@ -770,14 +775,12 @@ def judge(be, g_lines, g_expect, g_meta, res):
                                           oracle="direct read of the target in the same session"), None))
     if crashed_at is not None and crashed_at < n:
         mod = ml[crashed_at] if crashed_at < len(ml) else None
-        key = None
-        if mod == "crash" and is_crash(res["outcome"]):
-            key = K_CLOSE if "ADFI_close_file" in res["stack"] else (K_NEST if "ADFI_chase_link" in res["stack"] else None)
+        key = None                      # no crash is excused any more (8281ca0, 909ac4d)
         fails.append((crashed_at, dict(op=nodedb.short(g_lines[crashed_at], 200), outcome=res["outcome"], stack=res["stack"],
                                        oracle="every call returns (no crash, no hang)"), key))
     elif crashed_at is not None:
         mod = ml[n] if n < len(ml) else None
-        key = K_CLOSE if (mod == "crash" and is_crash(res["outcome"]) and "ADFI_close_file" in res["stack"]) else None
+        key = None
         fails.append((n, dict(op="(closing the files still open at exit)", outcome=res["outcome"], stack=res["stack"],
                               oracle="every call returns (no crash, no hang)"), key))
     div = None
@@ -798,21 +801,15 @@ def classify(be, meta, exp, got, mod):
         return None
     if meta.get("hint", {}).get(be):
         return meta["hint"][be]
-    if be == "adf" and (got == "err other" or got.endswith("!err other")) and meta.get("user_open"):
-        return K_CLOSE9                       # the file was opened by the caller; the model says it has been closed
     tr = meta.get("trace")
     if tr is None:
         return None
     if be == "adf":
-        if meta.get("renamed") and got.startswith("ok R:"):
-            return K_STALE
-        return None
+        return None                                   # every ADF defect class found so far has been repaired
     if tr["file_rule"] & {"typeenv", "cgnsenv", "pathlist"}:
         return K_H5PATH
     if tr["through_link"]:
         return K_H5VIA
-    if tr["landed_on_link"] or tr["hops"] > 1:
-        return K_H5CHAIN
     return None
 
 
@@ -829,8 +826,8 @@ def scenario(name, rng, be, root):
         g.x_open(A, "w")
         a = g.x_create(A, 0, b"A"); b = g.x_create(A, a, b"B", b"LabelB", b"payload"); g.x_create(A, b, b"K", b"LabelK")
         L = g.x_link(A, 0, b"L", b"", b"/A/B")
-        g.x_read(A, L); g.x_rename(A, b, b"C"); g.x_read(A, L, hint={"adf": K_STALE}); g.x_read(A, L, b"K", hint={"adf": K_STALE})
-        g.x_create(A, a, b"B", b"the new B"); g.x_read(A, L, hint={"adf": K_STALE})
+        g.x_read(A, L); g.x_rename(A, b, b"C"); g.x_read(A, L); g.x_read(A, L, b"K")
+        g.x_create(A, a, b"B", b"the new B"); g.x_read(A, L)
         g.x_delete(A, b); g.x_read(A, L)                      # a delete clears the cache: now the new B answers
         g.x_close(A)
     elif name == "nest":
@@ -845,8 +842,7 @@ def scenario(name, rng, be, root):
         B = g.add_file("m", b"b.cgns")
         g.x_open(A, "w"); g.x_create(A, 0, b"T", b"LabelT", b"xyz"); LA = g.x_link(A, 0, b"LA", b"b.cgns", b"/LB"); g.x_close(A)
         g.x_open(B, "w"); g.x_link(B, 0, b"LB", b"a.cgns", b"/T"); g.x_close(B)
-        g.x_open(A, "r"); g.x_read(A, LA); g.x_close(A)
-        g.x_open(A, "r"); g.x_read(A, LA); g.x_close(A)
+        g.x_open(A, "r"); g.x_read(A, LA); g.x_read(A, LA, b"") ; g.x_close(A)     # the close returns (909ac4d)
     elif name == "close9":
         # C08_close_refuted (#9): A -> B, C -> A; the caller holds A, B and C; closing C then A closes B behind his back
         B = g.add_file("m", b"b.cgns"); C = g.add_file("m", b"c.cgns")
@@ -977,7 +973,7 @@ def mll_cases(rng, be, root):
     cases = []
     sb, sa = rng.randint(1, 10 ** 6), rng.randint(1, 10 ** 6)
     GC, SOL = b"/Base/Zone1/GridCoordinates", b"/Base/Zone1/Sol"
-    chain_hint = {"hdf5": K_H5CHAIN}
+    chain_hint = None                                  # fff8c32: ADFH follows chains
 
     def basic(name, bloc, fname, config=(), hint=None, readback=True):
         c = MllCase(name, be, root)
@@ -1025,7 +1021,7 @@ def mll_cases(rng, be, root):
     cases.append(basic("cg_configure-set", "p1", b"b.cgns", ["cfgset %s" % hx(p1)], h5p))
     cases.append(basic("cg_configure-add", "p1", b"b.cgns", ["cfgset %s" % hx(p3), "cfgadd %s" % hx(p1)], h5p))
     cases.append(basic("cg_configure-add-keeps-earlier", "p1", b"b.cgns", ["cfgset %s" % hx(p1), "cfgadd %s" % hx(p3)],
-                       {"hdf5": K_H5PATH, "adf": K_CFGADD}))
+                       h5p))                           # bf287b5: ADD_PATH adds
     cases.append(basic("env-CGNS_LINK_PATH", "p1", b"b.cgns", ["setenv CGNS_LINK_PATH %s" % hx(p3 + b":" + p1)], h5p))
     cases.append(basic("env-type-LINK_PATH", "p1", b"b.cgns", ["setenv %s %s" % (ENVNAME[be], hx(p1))], h5p))
 
